@@ -918,6 +918,9 @@ func (s *Sched) perform(a alt) {
 		}
 	case opWgAdd:
 		wg := o.wg
+		if o.n > 0 && wg.n == 0 && len(wg.returning) > 0 {
+			o.panicMsg = "sync: WaitGroup is reused before previous Wait has returned"
+		}
 		wg.n += o.n
 		if raceOn && o.n < 0 {
 			wg.toks = append(wg.toks, t.curTok)
@@ -935,6 +938,7 @@ func (s *Sched) perform(a alt) {
 				if raceOn {
 					w.acq = appendToks(w.acq, wg.toks)
 				}
+				wg.returning = append(wg.returning, w)
 			}
 			wg.waiters = nil
 		}
